@@ -20,6 +20,11 @@ inductive Lock where
 
 inductive LEv where
   | acq (l : Lock) | rel (l : Lock)
+  /-- `server.Send` to the peer of the envelope.  `Router.Send` hands a message addressed to the router's OWN
+  identity to the dispatcher in the calling routine (router.go:315-327), and a plain-TCP or in-memory peer may
+  announce any identity — the server's own included: a `Send` can run a whole handler (and the `Send`s of that one)
+  before it returns.  So no lock may be held at a `Send`. -/
+  | send
   deriving DecidableEq, Repr
 
 /-- the global order: a lock may be taken only while all held locks have a smaller rank -/
@@ -38,6 +43,7 @@ def nest : List Lock → List LEv → Option (List Lock)
       match held with
       | h :: rest => if h = l then nest rest es else none
       | [] => none
+  | held, .send :: es => if held.isEmpty then nest held es else none
 
 def within (l : Lock) (inner : List LEv) : List LEv := [.acq l] ++ inner ++ [.rel l]
 
@@ -124,9 +130,10 @@ def lockTrace (s : Srv) : Env → List LEv
     else if to = .none then []
     else if s.slot (treeOf to) = .present then transmitTr s to
     else
-      -- `getAndRefresh`, `savePendingMsg`, `Get`, `IsRegistered`, and `Register` when the slot is new
-      tsOp ++ pmOp ++ tsOp ++ tsOp ++ (if s.slot (treeOf to) = .absent then tsOp else [])
-  | .reqTree _ _ => tsOp
+      -- `getAndRefresh`, `savePendingMsg`, `Get`, `IsRegistered`, and — when the slot is new — `Register` and the
+      -- request to the sender
+      tsOp ++ pmOp ++ tsOp ++ tsOp ++ (if s.slot (treeOf to) = .absent then tsOp ++ [.send] else [])
+  | .reqTree t _ => tsOp ++ (if s.slot t = .present then [.send] else [])   -- `Get`, the answer
   | .respTree tm ro => sendTreeTr s tm ro
   | .treeMarshal tm =>
     if tm.id = .Z then []
@@ -135,8 +142,8 @@ def lockTrace (s : Srv) : Env → List LEv
       -- `IsRequested`; the loop over the listed instances reads their trees under `instancesLock`
       tsOp ++ within .instances (instLoop (nListed s)) ++
         (if instanceRoster s tm.ro then sendTreeTr s (some tm) (some ⟨tm.ro, true, true⟩)
-         else within .pendingTree [])                          -- `addPendingTreeMarshal`
-  | .reqRoster _ => tsOp
+         else [.send] ++ within .pendingTree [])               -- the roster request, then `addPendingTreeMarshal`
+  | .reqRoster _ => tsOp ++ [.send]                           -- `GetRoster`, the answer (the roster or an empty one)
   | .sendRoster ro =>
     if ro.id = .roZ then []
     else within .pendingTree (pendingLoopTr ro s (s.pendingTM.filter (fun tm => tm.ro = ro.id)))
@@ -145,11 +152,28 @@ def lockTrace (s : Srv) : Env → List LEv
 /-- the handler of a protocol message that misses its tree and finds it unregistered, with the window of
 `rwindow` open between `IsRegistered` and `Register` (the envelopes handled there run in goroutines of their own):
 `Register` takes and releases the store's mutex whether or not the tree is known by then -/
-def missTr : List LEv := tsOp ++ pmOp ++ tsOp ++ tsOp ++ tsOp
+def missTr : List LEv := tsOp ++ pmOp ++ tsOp ++ tsOp ++ tsOp ++ [.send]
 
 /-- a `Register` that returns early, for an id that is known already, without releasing the store's mutex (the
 seeded change C07r5-A): the trace of the same handler when the window made the tree known -/
 def missTrLeaky : List LEv := tsOp ++ pmOp ++ tsOp ++ tsOp ++ [.acq .store]
+
+/-- `handleSendTreeMarshal` for a description whose roster no instance uses, with the description parked BEFORE the
+roster is asked for and the lock kept until the function returns (`defer`; the seeded change C07r6-B): the request
+goes out under `pendingTreeLock` -/
+def treeMarshalTrLockedSend (s : Srv) : List LEv :=
+  tsOp ++ within .instances (instLoop (nListed s)) ++ within .pendingTree [.send]
+
+/-- what the dispatcher runs inside that `Send` when the peer announced the server's own identity and the server
+holds the roster: `handleRequestRoster` (`GetRoster`, the answer — again to itself), inside it `handleSendRoster` →
+`checkPendingTreeMarshal` -/
+def selfRosterRoundTrip (inner : List LEv) : List LEv := tsOp ++ within .pendingTree inner
+
+/-- a trace with the callee's trace put in the place of its first `Send` -/
+def spliceSend (callee : List LEv) : List LEv → List LEv
+  | [] => []
+  | .send :: es => callee ++ es
+  | e :: es => e :: spliceSend callee es
 
 /-- the pinned code before repair 9b09732: a roster message with nothing pending returned with the lock held -/
 def lockTraceOld (s : Srv) : Env → List LEv
